@@ -754,3 +754,64 @@ func ZZ_S06b_StandaloneWaiter() {
 	zzvrt.Assert(!bh.TryAcquirePermit(), "bulkhead: after all executions finish exactly maxConcurrency permits are available again")
 	zzvrt.Reach("standalone-waiter-done")
 }
+
+// ---------------------------------------------------------------------------------------------
+// S09b: the hedge policy placed inside a retry, a timeout or a fallback.
+func ZZ_S09b_HedgePlacements() {
+	D := symDur("D", 1, 30)
+	d0 := symDur("d0", 0, 30)
+	d1 := symDur("d1", 0, 30)
+	place := zzvrt.Choose("placement", 3)
+	hp := hedgepolicy.BuilderWithDelay[int](D).OnHedge(func(e failsafe.ExecutionEvent[int]) { zzvrt.CtrAdd("hedges", 1) }).Build()
+	var ps []failsafe.Policy[int]
+	T := symDur("T", 1, 30)
+	switch place {
+	case 0:
+		ps = []failsafe.Policy[int]{retrypolicy.Builder[int]().WithMaxRetries(1).Build(), hp}
+	case 1:
+		ps = []failsafe.Policy[int]{timeout.With[int](T), hp}
+	default:
+		ps = []failsafe.Policy[int]{fallback.WithResult(55), hp}
+	}
+	start := zzvrt.Now()
+	r, err := failsafe.NewExecutor[int](ps...).GetWithExecution(func(e failsafe.Execution[int]) (int, error) {
+		k := zzvrt.CtrAdd("starts", 1)
+		zzvrt.CtrAdd("roundStarts", 1)
+		if e.IsHedge() {
+			// (a hedge launched in the timer/result tie of one retry round may only get to run during the next
+			// round, so per-round timing is asserted in S09a; here only the totals are)
+			zzvrt.Assert(zzvrt.Now()-start >= int64(D), "hedge: a hedge never starts before the hedge delay has elapsed")
+			zzvrt.Sleep(d1)
+		} else {
+			zzvrt.CtrSet("roundStarts", 1)
+			zzvrt.CtrAdd("firsts", 1)
+			zzvrt.CellSet("roundStart", zzvrt.Now())
+			zzvrt.Sleep(d0)
+		}
+		_ = k
+		return 0, errA
+	})
+	end := zzvrt.Now()
+	zzvrt.Quiesce()
+	switch place {
+	case 0:
+		zzvrt.Assert(errors.Is(err, retrypolicy.ErrExceeded), "retry: gives up with ExceededError")
+		zzvrt.Assert(zzvrt.CtrGet("starts") <= 4, "hedge: at most maxHedges+1 attempts per retry round")
+		zzvrt.Assert(zzvrt.CtrGet("starts") >= 2, "retry: each round runs at least the first attempt")
+	case 1:
+		if errors.Is(err, timeout.ErrExceeded) {
+			zzvrt.Assert(end-start >= int64(T), "timeout: ErrExceeded never before the time limit elapsed")
+		} else {
+			zzvrt.Assert(err == errA, "hedge: result produced by one of the attempts")
+		}
+		zzvrt.Assert(zzvrt.CtrGet("starts") <= 2, "hedge: at most maxHedges+1 attempts")
+	default:
+		zzvrt.Assert(err == nil, "fallback: replaces the failure")
+		zzvrt.Assert(r == 55, "fallback: replaces the failure")
+		zzvrt.Assert(zzvrt.CtrGet("starts") <= 2, "hedge: at most maxHedges+1 attempts")
+	}
+	zzvrt.Assert(zzvrt.CtrGet("hedges") == zzvrt.CtrGet("starts")-zzvrt.CtrGet("firsts"), "events: OnHedge once per hedge started")
+	zzvrt.Assert(zzvrt.Live() == 0, "leak: no library goroutine left")
+	zzvrt.Assert(zzvrt.ArmedTimers() == 0, "leak: no library timer left armed")
+	zzvrt.Reach("hedge-placements-done")
+}
